@@ -1,6 +1,18 @@
-(* Leader-side handlers (leader.go, changeconfig.go, transfer.go, config.go
-   leader part, replication.go bookkeeping).  STUB: filled in below. *)
+(* Executable model of the leader side:
+     leader.go        init, release, storeEntry, addReplication, checkReplUpdates, checkQuorum,
+                      majorityMatchIndex, onMajorityCommit, applyCommitted, notifyFlr, checkLogCompact
+     config.go        leader.setCommitIndex, leader.changeConfig
+     changeconfig.go  onChangeConfig, doChangeConfig, beginFinishedRounds, checkConfigActions,
+                      checkConfigAction, canChangeConfig, onWaitForStableConfig, round
+     transfer.go      onTransfer, validateTransfer, tryTransfer, onTransferTimeout, replyTransfer,
+                      onTimeoutNowResult, onNewTermTimeout
+     replication.go   onLeaderUpdate, writeAppendEntriesReq, onAppendEntriesResp, the result handling of
+                      sendInstallSnapReq (the bookkeeping a replication goroutine does; its control
+                      flow -- probe, pipeline, back-off -- is the scheduler's, see DESIGN.md)
+     fsm.go           onApply for the leader's queue
+   One function per Go function, same branch order; asserts/panics are [Err].  No proofs here. *)
 From Coq Require Import List NArith ZArith Bool.
+From RecordUpdate Require Import RecordUpdate.
 From Verif Require Import Base.Bytes Codec.Messages Node.Types Node.Handlers.
 Import ListNotations.
 Open Scope N_scope.
@@ -8,12 +20,681 @@ Open Scope N_scope.
 Record options := mkOptions {
   o_shutdown_on_remove : bool;
   o_quorum_wait : bool;       (* Raft.quorumWait != 0 *)
-  o_order : list N            (* order in which Go iterates maps keyed by node id (oracle) *)
+  o_slow : bool;              (* oracle: round.Duration() > promoteThreshold *)
+  o_newprev : N;              (* oracle: Log.PrevIndex() after a compaction performed by this event *)
+  o_order : list N            (* oracle: order in which Go iterates maps keyed by node id *)
 }.
 
-Inductive levent := LNone.
+(* what a task is told (canonical form of the value/error handed to task.reply) *)
+Inductive reply :=
+| RpNil | RpVal (n : N) | RpConfig (c : config)
+| RpNotLeader (lost : bool)
+| RpInProgress (k : N)     (* 1 transferLeadership 2 demoteLeader 3 removeLeader 4 configChange 5 takeSnapshot *)
+| RpNotCommitReady | RpStaleConfig | RpInvalid | RpServerClosed | RpQuorumUnreachable
+| RpTimeout | RpTransferNoVoter | RpTransferSelf | RpTransferTargetNonvoter | RpTransferInvalidTarget
+| RpTargetRejected | RpSnapThreshold | RpNoUpdates.
 
-Definition leader_init (opt : options) (s : nstate) : outcome nstate := Err EUnsupported.
-Definition leader_release (s : nstate) : nstate := s.
-Definition leader_on_timeout (opt : options) (s : nstate) : outcome nstate := Err EUnsupported.
-Definition leader_event (opt : options) (s : nstate) (e : levent) : outcome nstate := Err EUnsupported.
+(* messages a step puts on the wire / into channels *)
+Inductive lmsg :=
+| MTimeoutNow (target : N)                                   (* timeoutNowReq{term, nid} to target *)
+| MReplUpdate (id : N) (kind : N) (val : N)                  (* replUpdate from a replication: 1 matchIndex 2 removeLTE 3 newTerm *)
+| MAppend (id : N) (q : appendreq)                           (* appendReq written by a replication *)
+| MNeedSnapshot (id : N).                                    (* writeAppendEntriesReq returned ErrNotFound *)
+
+Record lout := mkOut { lo_replies : list (N * reply); lo_msgs : list lmsg }.
+Definition no_out : lout := mkOut [] [].
+Definition out_app (a b : lout) : lout := mkOut (lo_replies a ++ lo_replies b) (lo_msgs a ++ lo_msgs b).
+Definition W := (nstate * lout)%type.
+
+Definition wret (s : nstate) : outcome W := Done (s, no_out).
+Definition wreply (s : nstate) (tid : N) (r : reply) : outcome W :=
+  Done (s, mkOut (if tid =? 0 then [] else [(tid, r)]) []).
+Definition wmsg (s : nstate) (m : lmsg) : outcome W := Done (s, mkOut [] [m]).
+Definition wbind (o : outcome W) (f : nstate -> outcome W) : outcome W :=
+  match o with
+  | Err e => Err e
+  | Done (s, out) => match f s with
+                     | Err e => Err e
+                     | Done (s', out') => Done (s', out_app out out')
+                     end
+  end.
+Notation "s <~~ o ;; q" := (wbind o (fun s => q)) (at level 61, o at next level, right associativity).
+
+Definition get_ldr (s : nstate) : outcome ldrst :=
+  match st_ldr s with Some l => Done l | None => Err EBug end.
+Definition put_ldr (s : nstate) (l : ldrst) : nstate := set_ldr s (Some l).
+Definition upd_ldr (s : nstate) (f : ldrst -> ldrst) : nstate :=
+  match st_ldr s with Some l => put_ldr s (f l) | None => s end.
+
+Fixpoint find_repl (id : N) (l : list replst) : option replst :=
+  match l with [] => None | r :: t => if rp_id r =? id then Some r else find_repl id t end.
+Fixpoint put_repl_sorted (r : replst) (l : list replst) : list replst :=
+  match l with
+  | [] => [r]
+  | x :: t => if rp_id x =? rp_id r then r :: t
+              else if rp_id r <? rp_id x then r :: l else x :: put_repl_sorted r t
+  end.
+Definition upd_repl (s : nstate) (id : N) (f : replst -> replst) : nstate :=
+  upd_ldr s (fun l => l <| ld_repls := map (fun r => if rp_id r =? id then f r else r) (ld_repls l) |>).
+
+Definition transfer_in_progress (l : ldrst) : bool := ld_tr_active l.
+Definition target_chosen (l : ldrst) : bool := ld_tr_resp l || ld_tr_newterm l.
+Definition can_change_config (s : nstate) (l : ldrst) : bool :=
+  configs_committed s && negb (transfer_in_progress l).
+
+(* Log.ViewAt(p, q) on the node's log: Err = panic, nil_view = nil *)
+Definition view_at (s : nstate) (p q : N) : outcome N :=
+  if log_lastindex s <? q then Err ENilView
+  else if (q <? p) || (p <? st_logprev s) then Done nil_view
+  else Done p.
+
+(* ---------------------------------------------------------------- notifyFlr *)
+Definition notify_flr (s : nstate) (include_config : bool) : outcome nstate :=
+  l <~ get_ldr s ;;
+  vp <~ view_at s (ld_removelte l) (st_lastidx s) ;;
+  let u := mkPend vp (st_lastidx s) (st_commit s) include_config in
+  Done (put_ldr s (l <| ld_repls := map (fun r => r <| rp_pending := Some u |>) (ld_repls l) |>)).
+
+(* ---------------------------------------------------------------- addReplication *)
+Definition add_replication (s : nstate) (n : node) : outcome nstate :=
+  l <~ get_ldr s ;;
+  if n_id n =? st_nid s then Err EAssert else
+  vp <~ view_at s (ld_removelte l) (st_lastidx s) ;;
+  let r := mkRepl (n_id n) 0 false (n_voter n) (n_action n) None (ld_removelte l)
+                  0 (st_lastidx s + 1) (st_lastidx s) vp (n_voter n) (st_commit s) None in
+  Done (put_ldr s (l <| ld_repls := put_repl_sorted r (ld_repls l) |>)).
+
+Fixpoint add_replications (s : nstate) (ns : list node) : outcome nstate :=
+  match ns with
+  | [] => Done s
+  | n :: r => if n_id n =? st_nid s then add_replications s r
+              else s1 <~ add_replication s n ;; add_replications s1 r
+  end.
+
+(* ---------------------------------------------------------------- majorityMatchIndex *)
+Fixpoint insert_desc (x : N) (l : list N) : list N :=
+  match l with [] => [x] | y :: t => if y <? x then x :: l else y :: insert_desc x t end.
+Definition sort_desc (l : list N) : list N := fold_right insert_desc [] l.
+
+Definition voter_matches (s : nstate) (l : ldrst) : outcome (list N) :=
+  fold_right (fun n acc =>
+      a <~ acc ;;
+      if n_voter n then
+        if n_id n =? st_nid s then Done (st_lastidx s :: a)
+        else match find_repl (n_id n) (ld_repls l) with
+             | Some r => Done (rp_match r :: a)
+             | None => Err EBug                 (* l.repls[n.ID] is nil: nil dereference *)
+             end
+      else Done a) (Done []) (c_nodes (st_latest s)).
+
+Definition majority_match (s : nstate) (l : ldrst) : outcome N :=
+  if (ld_numvoters l =? 1) && ld_voter l then Done (st_lastidx s)
+  else
+    ms <~ voter_matches s l ;;
+    let sorted := sort_desc ms in
+    let q := (length ms / 2 + 1)%nat in      (* quorum := i/2 + 1 *)
+    match nth_error (sorted ++ repeat 0 (length (c_nodes (st_latest s)) - length ms)%nat) (q - 1)%nat with
+    | Some m => Done m
+    | None => Err EBug                          (* index out of range *)
+    end.
+
+(* ---------------------------------------------------------------- the leader's applyCommitted + fsm.onApply *)
+Definition update_result (data : bytes) : N :=
+  N.of_nat (length data) * 256 + match data with b :: _ => b | [] => 0 end.
+
+Fixpoint split_queue (commit : N) (q : list newent) : list newent * list newent :=
+  match q with
+  | [] => ([], [])
+  | ne :: r =>
+      if (ne_index ne <=? commit) || ((ne_index ne =? commit + 1) && negb (is_log_entry (ne_typ ne))) then
+        let (a, b) := split_queue commit r in (ne :: a, b)
+      else ([], q)
+  end.
+
+(* the queue part of fsm.onApply: every item must sit at fsm.index+1 *)
+Fixpoint apply_queue (s : nstate) (q : list newent) (out : list (N * reply)) : outcome (nstate * list (N * reply)) :=
+  match q with
+  | [] => Done (s, out)
+  | ne :: r =>
+      if negb (ne_index ne =? st_fsmidx s + 1) then Err EAssert else
+      let rep :=
+        if ne_typ ne =? entryUpdate then
+          match log_get s (ne_index ne) with Some e => RpVal (update_result (e_data e)) | None => RpNil end
+        else RpNil in
+      let s1 := if is_log_entry (ne_typ ne) then set_fsm s (ne_index ne) (st_term s) else s in
+      apply_queue s1 r (out ++ (if ne_tid ne =? 0 then [] else [(ne_tid ne, rep)]))
+  end.
+
+Definition leader_apply_committed (s : nstate) : outcome W :=
+  l <~ get_ldr s ;;
+  let (head, rest) := split_queue (st_commit s) (ld_queue l) in
+  let s1 := put_ldr s (l <| ld_queue := rest |>) in
+  if log_lastindex s1 <? st_commit s1 then Err ENilView
+  else if st_commit s1 <? st_logprev s1 then Err ENilView
+  else
+    let front := match head with ne :: _ => ne_index ne | [] => st_commit s1 + 1 end in
+    if front <? st_fsmidx s1 + 1 then
+      (* nothing to read from the log; the queue items are handled next *)
+      r <~ apply_queue s1 head [] ;;
+      let (s2, reps) := r in
+      if st_fsmidx s2 =? st_commit s2 then Done (s2, mkOut reps []) else Err EAssert
+    else
+      match terms_upto s1 (st_fsmidx s1 + 1) (N.to_nat (front - 1 - st_fsmidx s1)) (st_fsmterm s1) with
+      | None => Err EBug
+      | Some t =>
+          let s2 := if st_fsmidx s1 <? front - 1 then set_fsm s1 (front - 1) t else s1 in
+          r <~ apply_queue s2 head [] ;;
+          let (s3, reps) := r in
+          if st_fsmidx s3 =? st_commit s3 then Done (s3, mkOut reps []) else Err EAssert
+      end.
+
+(* ---------------------------------------------------------------- rounds *)
+Definition begin_round (r : roundst) (last : N) : roundst := mkRound (rd_ordinal r + 1) last false.
+
+(* beginFinishedRounds *)
+Definition begin_finished_rounds (s : nstate) : nstate :=
+  upd_ldr s (fun l => l <| ld_repls := map (fun r =>
+     match rp_round r with
+     | Some rd => if rd_finished rd then r <| rp_round := Some (begin_round rd (st_lastidx s)) |> else r
+     | None => r
+     end) (ld_repls l) |>).
+
+(* ---------------------------------------------------------------- config helpers *)
+Definition zero_node : node := mkNode 0 [] false [] 0.
+Definition cfg_node0 (c : config) (id : N) : node :=
+  match cfg_node c id with Some n => n | None => zero_node end.
+Definition cfg_set_node (c : config) (n : node) : config :=
+  mkConfig (put_node n (c_nodes c)) (c_index c) (c_term c).
+Definition cfg_del_node (c : config) (id : N) : config :=
+  mkConfig (filter (fun n => negb (n_id n =? id)) (c_nodes c)) (c_index c) (c_term c).
+Definition with_voter_action (n : node) (v : bool) (a : N) : node := mkNode (n_id n) (n_addr n) v (n_data n) a.
+
+(* the entry Config.encode() yields; storeEntry overwrites index and term *)
+Definition config_new_entry (c : config) : N * bytes := (entryConfig, enc_config_data (c_nodes c)).
+
+(* ---------------------------------------------------------------- the mutually recursive core:
+   storeEntry -> leader.changeConfig -> checkConfigActions -> checkConfigAction -> doChangeConfig -> storeEntry
+   and storeEntry -> onMajorityCommit -> leader.setCommitIndex -> checkConfigActions.
+   Recursion is on explicit fuel; running out is [Err EBug] and never happens on
+   the runs compared with the implementation (depth is bounded by the number of
+   pending configuration actions). *)
+Record newreq := mkNewReq { nq_typ : N; nq_data : bytes; nq_tid : N }.
+
+Section Core.
+Variable opt : options.
+
+Fixpoint store_entry (fuel : nat) (s : nstate) (nes : list newreq) {struct fuel} : outcome W :=
+  match fuel with O => Err EBug | S f =>
+  let last0 := st_lastidx s in
+  let cfgidx0 := c_index (st_latest s) in
+  let fix loop (s : nstate) (nes : list newreq) {struct nes} : outcome W :=
+    match nes with
+    | [] => wret s
+    | ne :: rest =>
+        l <~ get_ldr s ;;
+        if transfer_in_progress l then
+          s1 <~~ wreply s (nq_tid ne) (RpInProgress 1) ;; loop s1 rest
+        else if negb (ld_voter l) then
+          s1 <~~ wreply s (nq_tid ne)
+                   (match cfg_node (st_latest s) (st_nid s) with Some _ => RpInProgress 2 | None => RpInProgress 3 end) ;;
+          loop s1 rest
+        else
+          let e := mkEntry (st_lastidx s + 1) (st_term s) (nq_typ ne) (nq_data ne) in
+          let s1 := put_ldr s (l <| ld_queue := ld_queue l ++ [mkNewEnt (e_index e) (e_typ e) (nq_tid ne)] |>) in
+          if is_log_entry (nq_typ ne) then
+            s2 <~ append_entry s1 e ;;
+            if nq_typ ne =? entryConfig then
+              match config_of_entry e with
+              | None => Err EBug
+              | Some c => s3 <~~ leader_change_config f s2 c ;; loop s3 rest
+              end
+            else loop s2 rest
+          else loop s1 rest
+    end in
+  s1 <~~ loop s nes ;;
+  l1 <~ get_ldr s1 ;;
+  s2 <~~ (match ld_queue l1 with
+          | ne :: _ => if negb (is_log_entry (ne_typ ne)) then leader_apply_committed s1 else wret s1
+          | [] => wret s1
+          end) ;;
+  if last0 <? st_lastidx s2 then
+    let s3 := begin_finished_rounds s2 in
+    s4 <~ notify_flr s3 (cfgidx0 <? c_index (st_latest s3)) ;;
+    l4 <~ get_ldr s4 ;;
+    if (ld_numvoters l4 =? 1) && ld_voter l4 then on_majority_commit f s4 else wret s4
+  else wret s2
+  end
+
+with leader_change_config (fuel : nat) (s : nstate) (c : config) {struct fuel} : outcome W :=
+  match fuel with O => Err EBug | S f =>
+  l <~ get_ldr s ;;
+  let me := cfg_node c (st_nid s) in
+  let l1 := l <| ld_present := match me with Some _ => true | None => false end |>
+              <| ld_voter := match me with Some n => n_voter n | None => false end |>
+              <| ld_numvoters := num_voters c |> in
+  let s1 := change_config (put_ldr s l1) c in
+  (* remove replications of nodes that left *)
+  let s2 := upd_ldr s1 (fun l => l <| ld_repls := filter (fun r => match cfg_node c (rp_id r) with Some _ => true | None => false end) (ld_repls l) |>) in
+  (* add new ones, refresh status.node of the others *)
+  s3 <~ fold_left (fun acc n =>
+          s <~ acc ;;
+          if n_id n =? st_nid s then Done s else
+          l <~ get_ldr s ;;
+          match find_repl (n_id n) (ld_repls l) with
+          | None => add_replication s n
+          | Some _ => Done (upd_repl s (n_id n) (fun r => r <| rp_voter := n_voter n |> <| rp_action := n_action n |>))
+          end) (c_nodes c) (Done s2) ;;
+  check_config_actions f s3 0 (st_latest s3)
+  end
+
+with check_config_actions (fuel : nat) (s : nstate) (tid : N) (c : config) {struct fuel} : outcome W :=
+  match fuel with O => Err EBug | S f =>
+  l <~ get_ldr s ;;
+  let n := cfg_node0 c (st_nid s) in
+  r <~ (if can_change_config s l && negb (n_action n =? ActNone) then
+          if n_action n =? ActDemote then
+            let c' := cfg_set_node c (with_voter_action n false ActNone) in
+            w <~ do_change_config f s tid c' ;; Done (w, c')
+          else if (n_action n =? ActRemove) || (n_action n =? ActForceRemove) then
+            let c' := cfg_del_node c (st_nid s) in
+            w <~ do_change_config f s tid c' ;; Done (w, c')
+          else Err EBug                         (* panic(unreachable()) *)
+        else Done ((s, no_out), c)) ;;
+  let '((s1, out1), c1) := r in
+  l1 <~ get_ldr s1 ;;
+  let present := map rp_id (ld_repls l1) in
+  let visit := filter (fun id => existsb (N.eqb id) present) (o_order opt) ++
+               filter (fun id => negb (existsb (N.eqb id) (o_order opt))) present in
+  fold_left (fun acc id =>
+      s <~~ acc ;;
+      l <~ get_ldr s ;;
+      match find_repl id (ld_repls l) with
+      | None => wret s
+      | Some _ => check_config_action f s tid c1 id
+      end) visit (Done (s1, out1))
+  end
+
+with check_config_action (fuel : nat) (s : nstate) (tid : N) (c : config) (id : N) {struct fuel} : outcome W :=
+  match fuel with O => Err EBug | S f =>
+  l <~ get_ldr s ;;
+  match find_repl id (ld_repls l) with
+  | None => Err EBug
+  | Some rp =>
+      let n := cfg_node0 c id in
+      let action := next_action n in
+      if action =? ActNone then wret s else
+      (* start or stop rounds *)
+      let round1 := if negb (action =? ActPromote) then None
+                    else match rp_round rp with
+                         | None => Some (mkRound 1 (st_lastidx s) false)
+                         | Some r => Some r
+                         end in
+      (* finish round if completed, start new round if necessary *)
+      let round2 := match round1 with
+                    | Some r => if negb (rd_finished r) && (rd_last r <=? rp_match rp)
+                                then Some (mkRound (rd_ordinal r) (rd_last r) true) else Some r
+                    | None => None
+                    end in
+      let keep_waiting := match round2 with Some r => negb (rd_finished r) | None => false end in
+      let restart := match round2 with
+                     | Some r => rd_finished r && (rp_match rp <? st_lastidx s) && o_slow opt
+                     | None => false
+                     end in
+      let round3 := if restart then option_map (fun r => begin_round r (st_lastidx s)) round2 else round2 in
+      let s1 := upd_repl s id (fun r => r <| rp_round := round3 |>) in
+      if keep_waiting || restart then wret s1 else
+      l1 <~ get_ldr s1 ;;
+      if negb (can_change_config s1 l1) then wret s1 else
+      if action =? ActPromote then
+        do_change_config f s1 tid (cfg_set_node c (with_voter_action n true ActNone))
+      else if action =? ActRemove then
+        if c_index (st_latest s1) <=? rp_match rp then do_change_config f s1 tid (cfg_del_node c id) else wret s1
+      else if action =? ActForceRemove then
+        do_change_config f s1 tid (cfg_del_node c id)
+      else (* Demote *)
+        do_change_config f s1 tid
+          (cfg_set_node c (with_voter_action n false (if n_action n =? ActDemote then ActNone else n_action n)))
+  end
+  end
+
+with do_change_config (fuel : nat) (s : nstate) (tid : N) (c : config) {struct fuel} : outcome W :=
+  match fuel with O => Err EBug | S f =>
+  store_entry f s [mkNewReq entryConfig (enc_config_data (c_nodes c)) tid]
+  end
+
+with on_majority_commit (fuel : nat) (s : nstate) {struct fuel} : outcome W :=
+  match fuel with O => Err EBug | S f =>
+  l <~ get_ldr s ;;
+  m <~ majority_match s l ;;
+  if (st_commit s <? m) && (ld_start l <=? m) then
+    s1 <~~ leader_set_commit_index f s m ;;
+    s2 <~~ leader_apply_committed s1 ;;
+    s3 <~ notify_flr s2 false ;;
+    wret s3
+  else wret s
+  end
+
+with leader_set_commit_index (fuel : nat) (s : nstate) (index : N) {struct fuel} : outcome W :=
+  match fuel with O => Err EBug | S f =>
+  let s1 := commit_log s index in
+  let (s2, committed) := raft_set_commit_index (o_shutdown_on_remove opt) s1 index in
+  if committed then
+    l <~ get_ldr s2 ;;
+    if configs_committed s2 && is_stable (st_latest s2) then
+      Done (put_ldr s2 (l <| ld_waitstable := [] |>),
+            mkOut (map (fun t => (t, RpConfig (st_latest s2))) (ld_waitstable l)) [])
+    else check_config_actions f s2 0 (st_latest s2)
+  else wret s2
+  end.
+
+End Core.
+
+Definition FUEL : nat := 40.
+
+(* ---------------------------------------------------------------- leader.init / release / onTimeout *)
+Definition leader_init (opt : options) (s : nstate) : outcome nstate :=
+  if negb (st_leader s =? st_nid s) then Err EAssert else
+  let me := cfg_node (st_latest s) (st_nid s) in
+  let l := mkLdr (match me with Some _ => true | None => false end)
+                 (match me with Some n => n_voter n | None => false end)
+                 (num_voters (st_latest s)) (st_lastidx s + 1) [] []
+                 false 0 0 false false 0 [] (st_logprev s) in
+  s1 <~ add_replications (put_ldr s l) (c_nodes (st_latest s)) ;;
+  w <~ (s2 <~~ check_config_actions opt FUEL s1 0 (st_latest s1) ;;
+        store_entry opt FUEL s2 [mkNewReq entryNop [] 0]) ;;
+  Done (fst w).
+
+(* replies produced by init (none can occur: no task is pending yet) are dropped above;
+   [leader_init_out] exposes them for the theorems *)
+Definition leader_release_out (s : nstate) : nstate * lout :=
+  match st_ldr s with
+  | None => (s, no_out)
+  | Some l =>
+      let tr := if transfer_in_progress l then
+                  [(ld_tr_tid l, if ld_tr_term l <? st_term s then RpNil
+                                 else if st_closed s then RpServerClosed else RpQuorumUnreachable)]
+                else [] in
+      let s1 := if st_leader s =? st_nid s then set_leader s 0 else s in
+      let err := if st_closed s1 then RpServerClosed else RpNotLeader true in
+      let qs := map (fun ne => (ne_tid ne, err)) (filter (fun ne => negb (ne_tid ne =? 0)) (ld_queue l)) in
+      let ws := map (fun t => (t, err)) (ld_waitstable l) in
+      (set_ldr s1 None, mkOut (tr ++ qs ++ ws) [])
+  end.
+Definition leader_release (s : nstate) : nstate := fst (leader_release_out s).
+
+(* checkQuorum(wait); wait = 0 is "step down now" *)
+Definition check_quorum (opt : options) (s : nstate) (wait_nonzero : bool) : outcome nstate :=
+  l <~ get_ldr s ;;
+  r <~ fold_left (fun acc n =>
+         a <~ acc ;;
+         let '(voters, reachable) := a in
+         if n_voter n then
+           if n_id n =? st_nid s then Done (voters + 1, reachable + 1)
+           else match find_repl (n_id n) (ld_repls l) with
+                | Some rp => Done (voters + 1, if rp_nocontact rp then reachable else reachable + 1)
+                | None => Err EBug
+                end
+         else Done a) (c_nodes (st_latest s)) (Done (0, 0)) ;;
+  let '(voters, reachable) := r in
+  if voters / 2 + 1 <=? reachable then Done (if st_timer s then set_timer s false else s)
+  else if negb wait_nonzero then Done (set_leader (set_role s Follower) 0)
+  else Done (if st_timer s then s else set_timer s true).
+
+Definition leader_on_timeout (opt : options) (s : nstate) : outcome nstate := check_quorum opt s false.
+
+(* ---------------------------------------------------------------- transfer.go *)
+Definition repl_ready (s : nstate) (l : ldrst) (id : N) : outcome bool :=
+  match find_repl id (ld_repls l) with
+  | Some rp => Done (negb (rp_nocontact rp) && (rp_match rp =? st_lastidx s))
+  | None => Err EBug
+  end.
+
+Definition try_transfer (opt : options) (s : nstate) : outcome W :=
+  l <~ get_ldr s ;;
+  target <~ (if negb (ld_tr_target l =? 0) then
+               if is_voter (st_latest s) (ld_tr_target l) then
+                 ok <~ repl_ready s l (ld_tr_target l) ;; Done (if ok then ld_tr_target l else 0)
+               else Done 0
+             else
+               let ids := map n_id (c_nodes (st_latest s)) in
+               let visit := filter (fun id => existsb (N.eqb id) ids) (o_order opt) ++
+                            filter (fun id => negb (existsb (N.eqb id) (o_order opt))) ids in
+               fold_left (fun acc id =>
+                   a <~ acc ;;
+                   if negb (a =? 0) then Done a
+                   else if negb (id =? st_nid s) && is_voter (st_latest s) id then
+                     ok <~ repl_ready s l id ;; Done (if ok then id else 0)
+                   else Done 0) visit (Done 0)) ;;
+  if target =? 0 then wret s
+  else wmsg (put_ldr s (l <| ld_tr_resp := true |>)) (MTimeoutNow target).
+
+Definition transfer_reply (s : nstate) (r : reply) : outcome W :=
+  l <~ get_ldr s ;;
+  (* term, target and task of a finished transfer are dead values: cleared, as the state dump does *)
+  wreply (put_ldr s (l <| ld_tr_active := false |> <| ld_tr_resp := false |> <| ld_tr_newterm := false |>
+                       <| ld_tr_term := 0 |> <| ld_tr_target := 0 |> <| ld_tr_tid := 0 |>))
+         (ld_tr_tid l) r.
+
+Definition reply_transfer (opt : options) (s : nstate) (r : reply) : outcome W :=
+  s1 <~~ transfer_reply s r ;; check_config_actions opt FUEL s1 0 (st_latest s1).
+
+Definition on_transfer (opt : options) (s : nstate) (tid target : N) : outcome W :=
+  l <~ get_ldr s ;;
+  if transfer_in_progress l then wreply s tid (RpInProgress 1)
+  else if num_voters (st_latest s) =? 1 then wreply s tid RpTransferNoVoter
+  else
+    let bad := if target =? 0 then None
+               else if target =? st_nid s then Some RpTransferSelf
+               else match cfg_node (st_latest s) target with
+                    | Some n => if n_voter n then None else Some RpTransferTargetNonvoter
+                    | None => Some RpTransferInvalidTarget
+                    end in
+    match bad with
+    | Some r => wreply s tid r
+    | None =>
+        try_transfer opt (put_ldr s (l <| ld_tr_term := st_term s |> <| ld_tr_tid := tid |> <| ld_tr_target := target |>
+                                        <| ld_tr_active := true |>))
+    end.
+
+Definition on_timeout_now_result (opt : options) (s : nstate) (from : N) (err : bool) (result : N) : outcome W :=
+  l <~ get_ldr s ;;
+  let s1 := put_ldr s (l <| ld_tr_resp := false |>) in
+  if err then
+    match find_repl from (ld_repls l) with
+    | None => Err EBug
+    | Some _ =>
+        let s2 := upd_repl s1 from (fun r => r <| rp_nocontact := true |>) in
+        if ld_tr_target l =? 0 then try_transfer opt s2 else wret s2
+    end
+  else if negb (result =? success) then
+    if ld_tr_target l =? 0 then reply_transfer opt s1 RpTargetRejected else try_transfer opt s1
+  else wret (upd_ldr s1 (fun l => l <| ld_tr_newterm := true |>)).
+
+(* ---------------------------------------------------------------- changeconfig.go onChangeConfig *)
+Fixpoint has_dup_addr (ns : list node) : bool :=
+  match ns with
+  | [] => false
+  | n :: r => existsb (fun m => Messages.bytes_eqb (n_addr m) (n_addr n)) r || has_dup_addr r
+  end.
+(* Config.validate for configurations whose addresses are syntactically valid host:port *)
+Definition config_valid (c : config) : bool :=
+  forallb (fun n => negb (n_id n =? 0) && negb (match n_addr n with [] => true | _ => false end) &&
+                    negb ((n_action n =? ActPromote) && n_voter n) &&
+                    negb ((n_action n =? ActDemote) && negb (n_voter n))) (c_nodes c) &&
+  negb (has_dup_addr (c_nodes c)) && negb (num_voters c =? 0).
+
+Definition on_change_config (opt : options) (s : nstate) (tid : N) (c : config) : outcome W :=
+  l <~ get_ldr s ;;
+  if negb (configs_committed s) then wreply s tid (RpInProgress 4)
+  else if st_commit s <? ld_start l then wreply s tid RpNotCommitReady
+  else if negb (c_index c =? c_index (st_latest s)) then wreply s tid RpStaleConfig
+  else if negb (config_valid c) then wreply s tid RpInvalid
+  else if negb (forallb (fun n => match cfg_node c (n_id n) with
+                                  | Some nn => Bool.eqb (n_voter n) (n_voter nn)
+                                  | None => false end) (c_nodes (st_latest s))) then wreply s tid RpInvalid
+  else if negb (forallb (fun n => match cfg_node (st_latest s) (n_id n) with
+                                  | Some _ => true
+                                  | None => negb (n_voter n) end) (c_nodes c)) then wreply s tid RpInvalid
+  else if negb (existsb (fun n => n_voter n && (n_action n =? ActNone) && negb (n_id n =? 0)) (c_nodes c)) then wreply s tid RpInvalid
+  else
+    s1 <~~ check_config_actions opt FUEL s tid c ;;
+    if configs_committed s1 then do_change_config opt FUEL s1 tid c else wret s1.
+
+Definition on_wait_stable (s : nstate) (tid : N) : outcome W :=
+  l <~ get_ldr s ;;
+  if configs_committed s && is_stable (st_latest s) then wreply s tid (RpConfig (st_latest s))
+  else wret (put_ldr s (l <| ld_waitstable := ld_waitstable l ++ [tid] |>)).
+
+(* ---------------------------------------------------------------- checkReplUpdates (one update) *)
+Inductive replupd := UMatch (v : N) | URemoveLTE (v : N) | UNoContact (b : bool) | UNewTerm (t : N).
+
+(* checkLogCompact: compact when every replication released the prefix *)
+Definition check_log_compact (opt : options) (s : nstate) : outcome nstate :=
+  l <~ get_ldr s ;;
+  if forallb (fun r => ld_removelte l <=? rp_removelte r) (ld_repls l) then
+    let np := o_newprev opt in
+    if (st_logprev s <=? np) && (np <=? ld_removelte l) then
+      let s1 := commit_log s (log_lastindex s) in
+      Done (set_log s1 np (skipn (N.to_nat (np - st_logprev s1)) (st_log s1)) (st_lastidx s1) (st_lastterm s1))
+    else Err EBug
+  else Done s.
+
+Definition check_repl_update (opt : options) (s : nstate) (id : N) (u : replupd) : outcome W :=
+  l <~ get_ldr s ;;
+  match find_repl id (ld_repls l) with
+  | None => wret s                                   (* status.removed *)
+  | Some rp =>
+      match u with
+      | UNewTerm t =>
+          s1 <~ set_term (set_leader (set_role s Follower) 0) t ;; wret s1
+      | UMatch v =>
+          let s1 := upd_repl s id (fun r => r <| rp_match := v |>) in
+          s2 <~~ (if negb (rp_voter rp) && negb (rp_action rp =? ActNone)
+                  then check_config_action opt FUEL s1 0 (st_latest s1) id else wret s1) ;;
+          s3 <~~ on_majority_commit opt FUEL s2 ;;
+          l3 <~ get_ldr s3 ;;
+          if transfer_in_progress l3 && negb (target_chosen l3) then try_transfer opt s3 else wret s3
+      | URemoveLTE v =>
+          let s1 := upd_repl s id (fun r => r <| rp_removelte := v |>) in
+          if st_logprev s1 <? ld_removelte l then s2 <~ check_log_compact opt s1 ;; wret s2 else wret s1
+      | UNoContact b =>
+          let s1 := upd_repl s id (fun r => r <| rp_nocontact := b |>) in
+          s2 <~ check_quorum opt s1 (o_quorum_wait opt) ;;
+          l2 <~ get_ldr s2 ;;
+          if transfer_in_progress l2 && negb (target_chosen l2) then try_transfer opt s2 else wret s2
+      end
+  end.
+
+(* ---------------------------------------------------------------- replication.go bookkeeping *)
+(* onLeaderUpdate: consume what sits in leaderUpdateCh *)
+Definition flr_update (s : nstate) (id : N) : outcome W :=
+  l <~ get_ldr s ;;
+  match find_repl id (ld_repls l) with
+  | None => Err EBug
+  | Some rp =>
+      match rp_pending rp with
+      | None => wret s
+      | Some u =>
+          if (pu_viewprev u =? nil_view) || (rp_viewprev rp =? nil_view) then Err ENilView else
+          let voter := match pu_voter u with
+                       | true => n_voter (cfg_node0 (st_latest s) id)
+                       | false => rp_gvoter rp end in
+          let s1 := upd_repl s id (fun r => r <| rp_pending := None |> <| rp_viewprev := pu_viewprev u |>
+                                            <| rp_ldrlast := pu_last u |> <| rp_commit := pu_commit u |>
+                                            <| rp_gvoter := voter |>) in
+          if rp_viewprev rp <? pu_viewprev u then wmsg s1 (MReplUpdate id 2 (pu_viewprev u)) else wret s1
+      end
+  end.
+
+(* writeAppendEntriesReq(c, req, sendEntries) *)
+Definition flr_send (s : nstate) (id : N) (send_entries : bool) : outcome W :=
+  l <~ get_ldr s ;;
+  match find_repl id (ld_repls l) with
+  | None => Err EBug
+  | Some rp =>
+      if rp_viewprev rp =? nil_view then Err ENilView else
+      let prev := rp_next rp - 1 in
+      let in_view i := (rp_viewprev rp <? i) && (i <=? rp_ldrlast rp) in
+      let pt : outcome (option N) :=
+        if prev =? 0 then Done (Some 0)
+        else if prev =? st_snapidx s then Done (Some (st_snapterm s))
+        else if rp_ldrlast rp <? prev then Err ENilView              (* Log.Get panics: i > lastIndex *)
+        else if in_view prev then
+          match log_get s prev with Some e => Done (Some (e_term e)) | None => Err EBug end
+        else Done None in
+      p <~ pt ;;
+      match p with
+      | None => wmsg s (MNeedSnapshot id)
+      | Some prevterm =>
+          let num := if send_entries then N.min (rp_ldrlast rp - prev) 64 else 0 in
+          if (0 <? num) && negb (in_view (rp_next rp)) then wmsg s (MNeedSnapshot id)
+          else
+            let es := firstn (N.to_nat num) (skipn (N.to_nat (rp_next rp - st_logprev s - 1)) (st_log s)) in
+            if negb (N.of_nat (length es) =? num) then Err EBug else
+            wmsg (upd_repl s id (fun r => r <| rp_next := rp_next r + num |>))
+                 (MAppend id (mkAppendReq (st_term s) (st_nid s) prev prevterm (rp_commit rp) es))
+      end
+  end.
+
+(* onAppendEntriesResp(resp, reqLastIndex); [faulty] = ErrFaultyFollower returned *)
+Definition flr_resp (s : nstate) (id : N) (result rterm rlast reqlast : N) : outcome W :=
+  l <~ get_ldr s ;;
+  match find_repl id (ld_repls l) with
+  | None => Err EBug
+  | Some rp =>
+      if result =? staleTerm then wmsg s (MReplUpdate id 3 rterm)
+      else if result =? success then
+        if rp_gmatch rp <? reqlast then
+          wmsg (upd_repl s id (fun r => r <| rp_gmatch := reqlast |>)) (MReplUpdate id 1 reqlast)
+        else wret s
+      else if (result =? prevEntryNotFound) || (result =? prevTermMismatch) then
+        if rlast <? rp_gmatch rp then wret s                       (* ErrFaultyFollower *)
+        else wret (upd_repl s id (fun r => r <| rp_next := N.min (rp_next r - 1) (rlast + 1) |>))
+      else if result =? unexpectedErr then wret s                   (* remoteError *)
+      else Err EBug
+  end.
+
+(* sendInstallSnapReq, response = success *)
+Definition flr_snap_installed (s : nstate) (id : N) (snapidx : N) : outcome W :=
+  l <~ get_ldr s ;;
+  match find_repl id (ld_repls l) with
+  | None => Err EBug
+  | Some rp =>
+      if rp_ldrlast rp <? snapidx then Err EUnsupported             (* waits for a leader update first *)
+      else wmsg (upd_repl s id (fun r => r <| rp_gmatch := snapidx |> <| rp_next := snapidx + 1 |>))
+                (MReplUpdate id 1 snapidx)
+  end.
+
+(* ---------------------------------------------------------------- events of a leader *)
+Inductive levent :=
+| LClient (nes : list newreq)
+| LReplUpdate (id : N) (u : replupd)
+| LChangeConfig (tid : N) (c : config)
+| LWaitStable (tid : N)
+| LTransfer (tid target : N)
+| LTimeoutNowResult (from : N) (err : bool) (result : N)
+| LTransferTimeout
+| LNewTermTimeout
+| LFlrUpdate (id : N)
+| LFlrSend (id : N) (send_entries : bool)
+| LFlrResp (id : N) (result rterm rlast reqlast : N)
+| LFlrSnapInstalled (id : N) (snapidx : N).
+
+Definition leader_event_out (opt : options) (s : nstate) (e : levent) : outcome W :=
+  match e with
+  | LClient nes => store_entry opt FUEL s nes
+  | LReplUpdate id u => check_repl_update opt s id u
+  | LChangeConfig tid c => on_change_config opt s tid c
+  | LWaitStable tid => on_wait_stable s tid
+  | LTransfer tid target => on_transfer opt s tid target
+  | LTimeoutNowResult from err result => on_timeout_now_result opt s from err result
+  | LTransferTimeout => reply_transfer opt s RpTimeout
+  | LNewTermTimeout => try_transfer opt (upd_ldr s (fun l => l <| ld_tr_newterm := false |>))
+  | LFlrUpdate id => flr_update s id
+  | LFlrSend id b => flr_send s id b
+  | LFlrResp id r t l q => flr_resp s id r t l q
+  | LFlrSnapInstalled id i => flr_snap_installed s id i
+  end.
+
+Definition leader_event (opt : options) (s : nstate) (e : levent) : outcome nstate :=
+  w <~ leader_event_out opt s e ;; Done (fst w).
